@@ -13,6 +13,9 @@ Oracle:
   X-fin-first (side X writes its whole stream and half-closes at once; the other side closes only after it has seen the
               end of the connection): everything X sent arrives at the other side before that side sees the end.
               Bytes travelling towards X may be cut (the proxy turns X's FIN into a full close of X's connection).
+              The signature gets the suffix ":while-<other>-still-sending" when the other side had bytes under way
+              towards X at that moment (known finding: the proxy close()s the other side's socket with unread data,
+              the kernel resets the connection and drops what the proxy had queued to it).
   simultaneous FIN, close() with unread data, RST, early stop: prefix rule only.
 Waits that run out make the completeness part inconclusive; the prefix rule is judged on whatever arrived.
 """
@@ -135,9 +138,9 @@ def execute(env, sc):
             r.label("connect-answered-%s" % (m.group(1).decode() if m else "garbage"))
             base.health(r)
             return r
-        if not holder.wait_accepted(5.0):
+        if not holder.wait_accepted(5.0):   # the kernel completes the handshake; only the stub's accept() may lag
             env.stub.cancel(holder)
-            r.fail("200-without-a-connection-to-the-target", "the proxy answered 200 but the target stub accepted no connection within 5 s")
+            r.inconclusive = "the target stub accepted no connection within 5 s of the proxy's 200 (slow accept thread?)"
             base.health(r)
             return r
         cp = tcpstub.Peer(c.s, cs, prefill=raw[hend:]).start()
@@ -185,7 +188,9 @@ def execute(env, sc):
             if client_sent_all:
                 r.label("fin-first-sender-wrote-everything")
                 if got_t != c2t:
-                    r.fail("bytes-sent-before-client-fin-not-delivered", "client wrote all %d bytes (%d early) and then half-closed; target saw the end (eof=%s reset=%s) after %d bytes; target stream %d bytes, %d written" % (
+                    # was the target still sending towards the closing client (bytes the proxy had not read/delivered when it closed)?
+                    toward_cut = tp_.send_failed or tp_.sent < len(ts["data"]) or len(got_c) < tp_.sent
+                    r.fail("bytes-sent-before-client-fin-not-delivered" + (":while-target-still-sending" if toward_cut else ""), "client wrote all %d bytes (%d early) and then half-closed; target saw the end (eof=%s reset=%s) after %d bytes; target stream %d bytes, %d written" % (
                         len(c2t), early, tp_.eof, tp_.reset, len(got_t), len(t2c), tp_.sent))
                 else:
                     r.label("complete-from-closing-side")
@@ -193,7 +198,9 @@ def execute(env, sc):
             if target_sent_all:
                 r.label("fin-first-sender-wrote-everything")
                 if got_c != t2c:
-                    r.fail("bytes-sent-before-target-fin-not-delivered", "target wrote all %d bytes and then half-closed; client saw the end (eof=%s reset=%s) after %d bytes; client stream %d bytes, %d written" % (
+                    # was the client still sending towards the closing target (bytes the proxy had not read/delivered when it closed)?
+                    toward_cut = cp.send_failed or cp.sent < len(cs["data"]) or len(got_t) < cp.sent + early
+                    r.fail("bytes-sent-before-target-fin-not-delivered" + (":while-client-still-sending" if toward_cut else ""), "target wrote all %d bytes and then half-closed; client saw the end (eof=%s reset=%s) after %d bytes; client stream %d bytes, %d written" % (
                         len(t2c), cp.eof, cp.reset, len(got_c), len(c2t), cp.sent))
                 else:
                     r.label("complete-from-closing-side")
